@@ -18,6 +18,8 @@ def callback_programs(tier, rng):
     for ss in G.callback_tail_shapes():
         progs.append(D.Program('callback', None, ss, params=[], signal='fired', tag='cb-tail-shape'))
         progs.append(D.Program('callback', None, ss, params=[('n', 'int')], signal='fired', tag='cb-tail-shape'))
+    for ss in G.tails_after_skeletons(3 if tier == 'thorough' else 2):
+        progs.append(D.Program('callback', None, ss, params=[], signal='pinged', tag='cb-tail-after-skeleton'))
     # every signal x every admissible parameter prefix, body using each parameter once
     for sig, pref in SIGS.items():
         for ptys in pref:
@@ -107,12 +109,23 @@ REJECTIONS = [
 ]
 
 
+# handlers in places where no connection can be generated (nested object property, property group, gadget):
+# accepting them would leave an accepted handler unconnected
+DOC_REJECTIONS = [
+    ('import qmluic.QtWidgets\nQTreeView {\n  id: view\n  header.onSectionClicked: function(index: int) { view.toolTip = "x" }\n}\n', 'callback is not supported'),
+    ('import qmluic.QtWidgets\nQTreeView {\n  id: view\n  header.minimumSectionSize: 100\n  header.onSectionClicked: function(index: int) { view.toolTip = "x" }\n}\n', 'callback is not supported'),
+    ('import qmluic.QtWidgets\nQTreeView {\n  id: view\n  header { onSectionDoubleClicked: function(index: int) { view.toolTip = "x" } }\n}\n', 'callback is not supported'),
+    ('import qmluic.QtWidgets\nQTableView {\n  id: view\n  horizontalHeader.onSectionClicked: view.clearSelection()\n}\n', 'callback is not supported'),
+]
+
+
 def rejection_cases(su):
     """handlers that must be rejected with a diagnostic (enumerated concretely, no solver search)"""
     out = []
-    for src, frag in REJECTIONS:
-        text = ('import qmluic.QtWidgets\nQDialog {\n  id: root\n  QVBoxLayout {\n    VNode { id: a }\n    VNode { id: t0\n      '
-                + src + '\n    }\n  }\n}\n')
+    cases = [(None, src, frag) for src, frag in REJECTIONS] + [(doc, doc.split('\n')[-3].strip(), frag) for doc, frag in DOC_REJECTIONS]
+    for doc, src, frag in cases:
+        text = doc or ('import qmluic.QtWidgets\nQDialog {\n  id: root\n  QVBoxLayout {\n    VNode { id: a }\n    VNode { id: t0\n      '
+                       + src + '\n    }\n  }\n}\n')
         r = D.run_cli(su.qmluic, su.work, text, 'Rej')
         ok = r.rc != 0 and r.header is None and 'error' in r.stderr and (frag is None or frag in r.stderr)
         out.append({'handler': src, 'rejected': r.rc != 0, 'diagnostic_ok': ok})
